@@ -1,6 +1,5 @@
 """C14 -- ADT terrain survives build -> serialise -> parse, re-serialisation is stable, framing tiles the
 file and every offset-table entry points at a chunk of the named type."""
-import glob
 import json
 import os
 import re
@@ -53,26 +52,12 @@ def sig(b):
 
 
 def expand_bad(ctx, res, trace):
-    """ctx.validate keeps one BAD per event; Trace_AdtLayout prints one line per failed conjunct.
-    Re-read the TLC outputs of the validation shards (tlc-tv-<lo>-<start>-*.out in the scratch dir) and
-    return one bad item per (event, conjunct)."""
-    per_line = {}
-    for p in glob.glob(os.path.join(ctx.scratch, "tlc-tv-*.out")):
-        m = re.match(r"tlc-tv-(\d+)-(\d+)-\d+\.out$", os.path.basename(p))
-        if not m:
-            continue
-        start = int(m.group(2))
-        for mm in re.finditer(r'^<<"BAD", (\d+), "(.*)">>\s*$', open(p, errors="replace").read(), re.M):
-            per_line.setdefault(start + int(mm.group(1)), set()).add(mm.group(2))
+    """Trace_AdtLayout prints one short BAD line per failed conjunct; vlib keeps every (line, why)."""
     out = []
     for b in res["bad"]:
-        whys = sorted(per_line.get(b["line"], set())) or [b["why"].strip('"')]
-        if b["why"].strip('"') in ("unexplained",) or b["why"].startswith('"invariant'):
-            whys = [b["why"].strip('"')]
-        for w in whys:
-            nb = dict(b)
-            nb["why"] = w
-            out.append(nb)
+        nb = dict(b)
+        nb["why"] = b["why"].strip().strip('"')
+        out.append(nb)
     return out
 
 
